@@ -39,7 +39,7 @@ CHECKS.update({
    note=_ZB + "Beyond the recorded data the spec demands exactness for 399 years and otherwise only that every reported transition is a real rule change (where the enumeration stops is unspecified)."),
  "C14": dict(level="model_checking", technique=_ZT + " [history panels: every hint bracket set by one query, then probes, validated by history-free operators]",
    text="The specification's operators take no history argument; the driver forces the hidden hint into each bracket (and long random call sequences) and every answer must still equal the history-free specification.",
-   note=_ZB + "Name-cache clause (repeat loads, failed names) is covered with C13/C20 by the Loader model."),
+   note=_ZB + "The name-cache clause (repeat loads return the first value without consulting the data source again, failed names keep failing) is checked in the same run by replaying 2-thread x 2-call behaviours of the Loader model into LoadTimeZone (LoaderTrace; class keys cache:*)."),
 })
 CHECKS["C16"] = dict(level="model_checking",
    technique="TLA+ recogniser-with-result PosixTZ!ParseSpec (the property's grammar over byte strings) + TLC trace validation of cctz::ParsePosixSpec verdict and fields under two struct pre-fills (UBSan-trap), and end-to-end TZif loads of the same sentences",
